@@ -11,7 +11,7 @@
 //! at creation, its state as `t<tok>` while the full state dump equals the dump recorded when the
 //! token was assigned (`t0` at creation, `mut … tok=n` later).
 
-use std::collections::{BTreeMap, BTreeSet, HashMap, HashSet};
+use std::collections::{BTreeSet, HashMap, HashSet};
 use std::mem::ManuallyDrop;
 use std::net::IpAddr;
 use std::os::fd::FromRawFd;
@@ -25,7 +25,7 @@ use srtla_send::net::{CallbackBinder, SourceIpBinder, UplinkBinder};
 use srtla_send::sender::verif_hooks::{
     ConnIoMap, IpReload, PendingConnectionChanges, ReloadRefusal, SequenceTracker,
     analyze_ip_reload, analyze_ip_reload_text, apply_connection_changes,
-    create_connections_from_ips,
+    create_connections_from_ips, reconnect_uplink,
 };
 
 use verif_harness::util::*;
@@ -53,7 +53,7 @@ struct Real {
     canon: HashMap<u64, u64>,
     real_of: HashMap<u64, u64>,
     next_canon: u64,
-    sock_ident: HashMap<u64, Ident>,
+    sock_ident: HashMap<u64, (u64, Ident)>,
     tok: HashMap<u64, (u64, String)>,
     tracked: BTreeSet<u32>,
 }
@@ -147,7 +147,7 @@ impl Real {
                 self.canon.insert(c.conn_id, k);
                 self.real_of.insert(k, c.conn_id);
                 if let Some(io) = self.conn_io.get(&c.conn_id) {
-                    self.sock_ident.insert(k, ident_of(io));
+                    self.sock_ident.insert(k, (k, ident_of(io)));
                 }
                 self.tok.insert(k, (0, dump(c)));
             }
@@ -223,8 +223,8 @@ impl Real {
             .iter()
             .map(|(id, io)| {
                 let k = self.canon.get(id).copied();
-                let s = match k.and_then(|k| self.sock_ident.get(&k).map(|i| (k, i))) {
-                    Some((k, i)) if *i == ident_of(io) => format!("k{k}"),
+                let s = match k.and_then(|k| self.sock_ident.get(&k)) {
+                    Some((t, i)) if *i == ident_of(io) => format!("k{t}"),
                     _ => "k?".into(),
                 };
                 (self.canon_str(*id), k.unwrap_or(u64::MAX), s)
@@ -728,10 +728,15 @@ impl Reload {
         (format!("{prefix} text={} lines={}", to_hex(text.as_bytes()), classify(text)), ok)
     }
 
-    fn gen_env(&mut self, rng: &mut Rng, ops: &mut Vec<String>, nlinks: usize, created: u64, tok: &mut u64, now: u64, seqs: &mut Vec<u32>) {
+    fn gen_env(&mut self, rng: &mut Rng, ops: &mut Vec<String>, nlinks: usize, created: u64, tok: &mut u64, now: u64, seqs: &mut Vec<(u32, u64)>) {
         let n = rng.range(1, 5);
         for _ in 0..n {
-            match rng.below(7) {
+            match rng.below(8) {
+                7 => {
+                    let i = if nlinks > 0 && rng.chance(9, 10) { rng.below(nlinks as u64) } else { nlinks as u64 + rng.below(2) };
+                    *tok += 1;
+                    ops.push(format!("resock i={i} tok={tok} sock={} now={now}", 1000 + *tok));
+                }
                 0 | 1 | 2 => {
                     let i = if nlinks > 0 && rng.chance(9, 10) { rng.below(nlinks as u64) } else { nlinks as u64 + rng.below(2) };
                     *tok += 1;
@@ -752,7 +757,7 @@ impl Reload {
                         }
                     };
                     let seq = if !seqs.is_empty() && rng.chance(1, 4) {
-                        let s = *rng.pick(seqs);
+                        let s = rng.pick(seqs).0;
                         match rng.below(3) {
                             0 => s,
                             1 => s.wrapping_add(16384),
@@ -772,7 +777,7 @@ impl Reload {
                         3 => now + 10,
                         _ => now - rng.below(2000),
                     };
-                    seqs.push(seq);
+                    seqs.push((seq, ts));
                     ops.push(format!("track seq={seq} id={id} ts={ts}"));
                 }
                 _ => {
@@ -791,24 +796,22 @@ impl Component for Reload {
          missing file, directory, non-UTF-8 bytes; (b) sequences: `start` on a (possibly duplicated) subset of \
          127.0.0.1-5, then 2-6 reloads (`sighup` of a generated file + `tick`, sometimes refused or overridden \
          by a second SIGHUP, sometimes with unbindable / wrong-family addresses) interleaved with state \
-         mutations of links, SequenceTracker inserts for live, removed, ghost and zero ids (slot collisions, \
+         mutations of links, in-place reconnects (real `reconnect_uplink`), SequenceTracker inserts for live, removed, ghost and zero ids (slot collisions, \
          5000/5001 ms ages) and routing choices; (c) every (old,new) subset pair of 5 loopback addresses \
-         (thorough: all 1024, quick: 128 of them). Non-trivial: one reload removed, kept and added links at \
+         (all 1024, in both tiers). Non-trivial: one reload removed, kept and added links at \
          once, or a survivor carried traffic state (connected, in-flight log) across a reload."
     }
 
     fn gen_case(&mut self, rng: &mut Rng, tier: Tier, idx: usize) -> Vec<String> {
         let mut ops: Vec<String> = Vec::new();
-        let pairs = match tier {
-            Tier::Quick => 128,
-            Tier::Thorough => 1024,
-        };
+        let _ = tier;
+        let pairs = 1024;
         let port = 5000 + rng.below(3) as u16;
         let mut now: u64 = 1_000_000 + rng.below(1000);
         let pool5 = Self::pool(5);
         if idx < pairs {
             // (c) exhaustive subset pairs
-            let code = if tier == Tier::Thorough { idx } else { (idx * 37 + 5) % 1024 };
+            let code = idx;
             let (o, n) = (code >> 5, code & 31);
             let old: Vec<IpAddr> = (0..5).filter(|b| o >> b & 1 == 1).map(|b| pool5[b]).collect();
             let new: Vec<IpAddr> = (0..5).filter(|b| n >> b & 1 == 1).map(|b| pool5[b]).collect();
@@ -894,7 +897,7 @@ impl Component for Reload {
         let mut live: Vec<IpAddr> = cur.iter().copied().filter(|ip| self.probe(*ip)).collect();
         let mut created = live.len() as u64;
         let mut tok = 0u64;
-        let mut seqs: Vec<u32> = Vec::new();
+        let mut seqs: Vec<(u32, u64)> = Vec::new();
         let mut pending: Option<Vec<IpAddr>> = None;
         let reloads = rng.range(2, 6);
         for _ in 0..reloads {
@@ -952,9 +955,13 @@ impl Component for Reload {
             }
             for _ in 0..rng.below(3) {
                 if !seqs.is_empty() {
-                    let s = *rng.pick(&seqs);
-                    let dt = *rng.pick(&[0u64, 1, 4000, 5000, 5001, 9000]);
-                    ops.push(format!("get seq={s} now={}", now + dt));
+                    let (s, ts) = *rng.pick(&seqs);
+                    let at = if rng.chance(1, 2) {
+                        ts + *rng.pick(&[0u64, 4999, 5000, 5001])
+                    } else {
+                        now + *rng.pick(&[0u64, 1, 4000, 5000, 5001, 9000])
+                    };
+                    ops.push(format!("get seq={s} now={at}"));
                 }
             }
             if rng.chance(1, 6) {
@@ -1204,6 +1211,34 @@ impl Component for Reload {
                 mon.count("env:mutate");
                 "ok".into()
             }
+            ["resock", i, t, k, n] => {
+                let Some(st) = self.st.as_mut() else { return "bad-op".into() };
+                let (Some(idx), Some(tok), Some(sock), Some(now)) = (
+                    kv_parse::<usize>(&[*i], "i"),
+                    kv_parse::<u64>(&[*t], "tok"),
+                    kv_parse::<u64>(&[*k], "sock"),
+                    kv_parse::<u64>(&[*n], "now"),
+                ) else {
+                    return "bad-op".into();
+                };
+                verif_clock::set(Some(now));
+                let Some(c) = st.connections.get_mut(idx) else { return "noidx".into() };
+                // as in handle_housekeeping: `match conn_io.get_mut(&conn.conn_id) { Some(io) => reconnect_uplink(conn, io, now)`
+                let Some(io) = st.conn_io.get_mut(&c.conn_id) else { return "noio".into() };
+                let old = ident_of(io);
+                if self.rt.block_on(reconnect_uplink(c, io, now)).is_err() {
+                    return "fail".into();
+                }
+                let k = st.canon.get(&c.conn_id).copied().unwrap_or(0);
+                let new = ident_of(io);
+                if new.ptr == old.ptr && new.port == old.port {
+                    mon.count("env:reconnect-same-identity");
+                }
+                st.sock_ident.insert(k, (sock, new));
+                st.tok.insert(k, (tok, dump(c)));
+                mon.count("env:reconnect");
+                "ok".into()
+            }
             ["track", q, i, t] => {
                 let Some(st) = self.st.as_mut() else { return "bad-op".into() };
                 let (Some(seq), Some(id), Some(ts)) =
@@ -1267,6 +1302,3 @@ impl Drop for Reload {
 fn main() {
     verif_harness::run_main("reload", Box::new(Reload::new()));
 }
-
-#[allow(dead_code)]
-fn _unused(_: BTreeMap<u8, u8>) {}
